@@ -246,3 +246,182 @@ def thread_block_list_rules(ctx):
             label="cas|free")
     chain(ctx, rid, T + "release_entry", [call("abandon")], label="release=abandon")
     present(ctx, rid, T + "entry::abandon", {"k": "call", "field": "state", "op": "store"}, label="store-free")
+
+
+# ---------------------------------------------------------------------------------------------------------------
+def epoch_rules(ctx):
+    E = R + "generic_epoch_based::"
+    TD = E + "thread_data::"
+    rid = "EBR.protocol"
+    ctx.rule(rid, "epoch based reclamation: critical-region flag then seq_cst fence then epoch load; epoch advance = acquire fence, detach "
+                  "orphan slot, release-CAS, delete on success / hand back on failure; three epochs; retire into the current local epoch")
+    chain(ctx, rid, TD + "set_critical_region_flag", [{"k": "call", "field": "is_in_critical_region", "op": "store", "desc": "flag store"}, FENCE_SC], label="flag<fence",
+          why="store->load ordering between announcing the critical region and reading the global epoch")
+    chain(ctx, rid, TD + "do_enter_critical", [call("set_critical_region_flag"), {"k": "call", "field": "global_epoch", "op": "load", "desc": "global_epoch.load"}],
+          label="flag<epoch-load", optional_first=True)
+    GE_CAS = {"k": "call", "field": "global_epoch", "kind": "cas", "desc": "global_epoch CAS"}
+    chain(ctx, rid, TD + "update_global_epoch", [dict(FENCE_ACQ), GE_CAS], label="acquire-fence<cas",
+          why="the fence orders the scan's loads of the other threads' state before publishing the new epoch")
+    # C01.g drain before publish
+    chain(ctx, "EBR.orphans", TD + "update_global_epoch", [call("orphan_list::adopt"), GE_CAS], label="adopt<publish",
+          why="once the new epoch is published other threads can put nodes retired in that epoch into the same orphan slot; "
+              "the slot must be detached before the CAS")
+    guarded(ctx, "EBR.orphans", TD + "update_global_epoch", call("delete_objects"), GE_CAS, True, label="delete|cas-success",
+            why="detached orphans may only be destroyed by the thread that published the epoch")
+    guarded(ctx, "EBR.orphans", TD + "update_global_epoch", call("orphan_list::add"), GE_CAS, False, label="handback|cas-failure",
+            why="orphans detached by a thread that lost the race must be handed back, not dropped (C02) and not destroyed")
+    # update_local_epoch: publish the new local epoch, then free
+    chain(ctx, rid, TD + "update_local_epoch", [{"k": "call", "field": "local_epoch", "op": "store", "desc": "local_epoch.store"}, call("steal"), call("delete_objects")],
+          label="store<steal<delete")
+    # constants
+    for rec in ctx.facts.rec_by_pat.get(R + "generic_epoch_based", []):
+        pass
+    _number_epochs(ctx, TD + "update_local_epoch", "EBR.constants")
+    # C01.d retire into the list of the current local epoch
+    for fn in flow._shapes(ctx, TD + "add_retired_node"):
+        pushes = flow.find(fn, call("push"))
+        ok = bool(pushes) and any("local_epoch_idx" in fn.expr(p) for p in pushes)
+        ctx.check(ok, "EBR.constants", TD + "add_retired_node#current-epoch-list", "push into retire_lists[local_epoch_idx]",
+                  "a retired node must be filed under the thread's current local epoch", fn.where(), fn=fn)
+    # thread exit
+    _exit_handover(ctx, "EBR.thread-exit", TD + "~thread_data", "retire_lists", call("orphan_list::add"), call("release_entry"))
+    chain(ctx, "EBR.thread-exit", TD + "~thread_data", [call("steal"), call("orphan_list::add")], label="steal-into-orphans")
+    chain(ctx, "EBR.block-init", TD + "acquire_control_block", [call("acquire_entry"), {"k": "call", "field": "global_epoch", "op": "load"},
+                                                                 {"k": "call", "field": "local_epoch", "op": "store"}], label="acquire<epoch<store",
+          why="an adopted control block carries the stale local epoch of the previous owner")
+    # C17.c exited / non-critical threads never block the epoch
+    crit = {"k": "call", "field": "is_in_critical_region", "op": "load", "desc": "is_in_critical_region.load"}
+    le = {"k": "call", "field": "local_epoch", "op": "load", "desc": "local_epoch.load"}
+    guarded(ctx, "EBR.activity", R + "scan::all_threads::type::scan::(lambda0)::operator()", le, crit, True, label="epoch|in-critical",
+            why="a thread outside a critical region (or exited) must not prevent the epoch from advancing")
+    guarded(ctx, "EBR.activity", R + "scan::n_threads::type::scan", le, crit, True, label="epoch|in-critical")
+    # the flag is cleared when the outermost critical region is left; abandon strategy applied afterwards
+    chain(ctx, rid, TD + "clear_critical_region_flag", [{"k": "call", "field": "is_in_critical_region", "op": "store", "desc": "flag clear"}], label="clears-flag")
+
+
+def _number_epochs(ctx, pat, rid, minimum=3):
+    ctx.rule(rid, "constants of the epoch schemes: number_epochs >= 3; freed list indices are (new_epoch - i) %% number_epochs")
+    vals = set()
+    for fn in flow._shapes(ctx, pat):
+        for b, i, e, n in fn.events():
+            if n["k"] == "ref" and n.get("name", "").endswith("number_epochs") and "v" in n:
+                vals.add(n["v"])
+            if n["k"] == "member" and n.get("leaf") == "number_epochs" and "v" in n:
+                vals.add(n["v"])
+    if not vals:
+        ctx.broken.append("number_epochs not found as a constant in %s" % pat)
+        return
+    ctx.check(min(vals) >= minimum, rid, pat.split("::thread_data")[0] + "#number_epochs>=%d" % minimum, "number_epochs = %s" % sorted(vals),
+              "number_epochs = %s: with fewer than three epoch lists a node retired in epoch e can be freed while a region entered in e+1 "
+              "still references it" % sorted(vals), "", None)
+
+
+def qsbr_rules(ctx):
+    Q = R + "quiescent_state_based::"
+    TD = Q + "thread_data::"
+    rid = "QSBR.protocol"
+    ctx.rule(rid, "quiescent state based reclamation: epoch advance blocked by active threads in the previous epoch; retire list of "
+                  "epoch e freed after the local epoch store; orphans re-filed (never deleted directly) on the CAS success edge")
+    GE_CAS = {"k": "call", "field": "global_epoch", "kind": "cas", "desc": "global_epoch CAS"}
+    chain(ctx, rid, TD + "try_update_epoch", [dict(FENCE_ACQ), GE_CAS], label="acquire-fence<cas")
+    guarded(ctx, rid, TD + "try_update_epoch", call("adopt_orphans"), GE_CAS, True, label="adopt|cas-success",
+            why="orphans are adopted by exactly the thread that advanced the epoch")
+    # 'return false' only if some active thread is in the old epoch
+    chain(ctx, rid, TD + "quiescent_state", [{"k": "call", "field": "global_epoch", "op": "load"}, {"k": "call", "field": "local_epoch", "op": "store", "desc": "local_epoch.store"},
+                                             call("delete_objects")], label="epoch-load<store<delete",
+          why="the thread announces the new epoch before freeing the list of its previous incarnation")
+    guarded(ctx, rid, TD + "quiescent_state", {"k": "call", "field": "local_epoch", "op": "store"}, call("try_update_epoch"), True, label="store|update-ok",
+            require_action=True) if False else None
+    for fn in flow._shapes(ctx, TD + "adopt_orphans"):
+        ok = not flow.find(fn, call("delete_self")) and not flow.find(fn, call("delete_objects")) and bool(flow.find(fn, call("add_retired_node")))
+        ctx.check(ok, rid, TD + "adopt_orphans#refile-only", "adopted orphans are re-filed under their target epoch, never deleted directly",
+                  "adopt_orphans must re-file adopted orphans into the adopter's retire lists", fn.where(), fn=fn)
+    _number_epochs(ctx, TD + "quiescent_state", "QSBR.constants")
+    # activity conjunct
+    guarded(ctx, "QSBR.activity", TD + "try_update_epoch::(lambda0)::operator()", call("is_active"), {"k": "bin", "expr_re": r"local_epoch\.load\(.*\) == old_epoch", "desc": "local_epoch == old_epoch"},
+            True, label="is_active-conjunct", why="an exited thread (inactive block) must not block the epoch")
+    for fn in flow._shapes(ctx, TD + "try_update_epoch::(lambda0)::operator()"):
+        ok = bool(flow.find(fn, call("is_active")))
+        ctx.check(ok, "QSBR.activity", TD + "try_update_epoch#is_active", "blocking predicate tests is_active", "the blocking predicate ignores is_active", fn.where(), fn=fn)
+    # thread exit: orphan created with the retire lists, before the block is released
+    _exit_handover(ctx, "QSBR.thread-exit", TD + "~thread_data", "retire_lists", call("abandon_retired_nodes"), call("release_entry"))
+    # block init: store + validating CAS
+    chain(ctx, "QSBR.block-init", TD + "ensure_has_control_block", [call("acquire_entry"), {"k": "call", "field": "local_epoch", "op": "store"}, GE_CAS], label="acquire<store<cas",
+          why="the local epoch of an adopted block is set and validated against the global epoch")
+    # add_retired_node uses the thread's current local epoch
+    for fn in flow._shapes(ctx, TD + "add_retired_node"):
+        if len(fn.params) == 1:
+            ok = any("local_epoch" in fn.expr(e) for e in flow.find(fn, call("add_retired_node")))
+            ctx.check(ok, "QSBR.constants", TD + "add_retired_node#current-epoch-list", "node filed under the current local epoch",
+                      "a retired node must be filed under the thread's current local epoch", fn.where(), fn=fn)
+
+
+# ---------------------------------------------------------------------------------------------------------------
+def stamp_rules(ctx):
+    S = R + "stamp_it::"
+    TD = S + "thread_data::"
+    rid = "STAMP.protocol"
+    ctx.rule(rid, "stamp-it: a retired node is stamped with the head stamp before it enters a retire list and destroyed only if its stamp "
+                  "is <= the tail stamp; next pointers are read before delete_self; the last leaver processes the global list")
+    STAMP_LE = {"k": "bin", "expr_re": r"stamp <= tail_stamp", "desc": "stamp <= tail_stamp"}
+    guarded(ctx, "STAMP.delete-licensed", TD + "process_local_nodes", call("delete_self"), STAMP_LE, True, label="delete|stamp<=tail")
+    chain(ctx, rid, TD + "process_local_nodes", [call("tail_stamp"), call("delete_self")], label="tail_stamp<delete")
+    guarded(ctx, "STAMP.delete-licensed", TD + "process_global_nodes::(lambda0)::operator()", call("delete_self"), STAMP_LE, True, label="delete|stamp<=tail")
+    chain(ctx, rid, TD + "process_global_nodes::(lambda0)::operator()", [{"k": "decl", "expr_re": r"^next = cur->next", "desc": "next = cur->next"}, call("delete_self")],
+          label="next<delete", why="the successor must be read before the node is destroyed")
+    chain(ctx, rid, TD + "process_local_nodes", [{"k": "bin", "expr_re": r"^\(next = cur->next\)", "desc": "next = cur->next"}, call("delete_self")],
+          label="next<delete")
+    chain(ctx, rid, TD + "process_global_nodes", [call("tail_stamp"), call("steal_global_retired_nodes")], label="tail_stamp<steal",
+          why="the tail stamp used for the test must not be newer than the list it is applied to ... it must be read before stealing")
+    chain(ctx, rid, TD + "add_retired_node", [call("head_stamp"), {"k": "bin", "expr_re": r"^\(\*this->prev_retired_node = p\)", "desc": "*prev_retired_node = p"}],
+          label="stamp<insert")
+    chain(ctx, rid, TD + "enter_region", [call("ensure_has_control_block"), call("thread_order_queue::push")], label="block<push")
+    guarded(ctx, rid, TD + "enter_region", call("thread_order_queue::push"), {"k": "bin", "expr_re": r"\+\+this->region_entries == 1", "desc": "++region_entries == 1"}, True,
+            label="push|outermost")
+    guarded(ctx, rid, TD + "leave_region", call("thread_order_queue::remove"), {"k": "bin", "expr_re": r"--this->region_entries == 0", "desc": "--region_entries == 0"}, True,
+            label="remove|outermost")
+    chain(ctx, rid, TD + "leave_region", [call("thread_order_queue::remove"), call("process_global_nodes")], label="remove<process")
+    guarded(ctx, rid, TD + "leave_region", call("process_global_nodes"), call("thread_order_queue::remove"), True, label="global|wasLast",
+            why="only the last thread to leave may process the global retire list against the tail stamp it observed")
+    # thread exit
+    for fn in flow._shapes(ctx, TD + "~thread_data"):
+        h = flow.find(fn, call("add_to_global_retired_nodes"))
+        ab = flow.find(fn, call("abandon"))
+        ctx.check(bool(h) and bool(ab), "STAMP.thread-exit", TD + "~thread_data#handover", "pending nodes go to the global list; control block abandoned",
+                  "thread exit must hand its pending retired nodes to the global list and abandon its control block (found %d / %d)" % (len(h), len(ab)), fn.where(), fn=fn)
+    chain(ctx, "STAMP.thread-exit", TD + "~thread_data", [call("process_local_nodes"), call("add_to_global_retired_nodes")], label="process<handover")
+    chain(ctx, rid, S + "guard_ptr::reclaim", [call("set_deleter"), call("add_retired_node")], label="deleter<retire")
+
+
+def lfrc_rules(ctx):
+    L = R + "lock_free_ref_count::"
+    rid = "LFRC.protocol"
+    ctx.rule(rid, "lock-free reference counting: increment then re-validate the source; destroy / recycle only when decrement_refcnt() "
+                  "claims the node; reclaim drops the initial reference with a release RMW")
+    RC_ADD = {"k": "call", "field": "call:" + L + "enable_concurrent_ptr::ref_count", "op": "fetch_add", "desc": "ref_count.fetch_add"}
+    for f in ("guard_ptr::acquire", "guard_ptr::acquire_if_equal"):
+        chain(ctx, "LFRC.validate-after-protect", L + f, [RC_ADD, {"k": "call", "field": "param:p", "op": "load", "desc": "reload of the source"}], mode="post",
+              label=f.split("::")[-1] + ":reload", why="after incrementing the count the source must be re-read and compared; otherwise the node may "
+                                                     "already have been recycled for another object")
+    # return paths of acquire: only via q == reload (or null)
+    for fn in flow._shapes(ctx, L + "guard_ptr::acquire_if_equal"):
+        rets = [e for e in flow.find(fn, {"k": "return"}) if fn.kids(e) and fn.nodes[fn.kids(e)[0]].get("v") == 1]
+        eqp = lambda f, nid: f.nodes[nid]["k"] == "call" and f.nodes[nid].get("callee", "").endswith("operator==") and "p.load" in f.expr(nid)
+        nullq = lambda f, nid: f.nodes[nid]["k"] == "bin" and "q.get() == nullptr" in f.expr(nid)
+        okall = True
+        for r in rets:
+            ok, p, n = flow.only_via(fn, r, lambda f, nid: eqp(f, nid) or nullq(f, nid), True)
+            okall = okall and ok and n > 0
+        ctx.check(okall and bool(rets), "LFRC.validate-after-protect", L + "guard_ptr::acquire_if_equal#true|revalidated", "'return true' only after re-validation (or null)",
+                  "'return true' reachable without the re-validation of the source", fn.where(), fn=fn)
+    # destruction licensed by decrement_refcnt()
+    for f in ("guard_ptr::reset", "enable_concurrent_ptr::operator delete"):
+        guarded(ctx, "LFRC.delete-licensed", L + f, call("push_to_free_list"), call("decrement_refcnt"), True, label="recycle|claimed")
+    guarded(ctx, "LFRC.delete-licensed", L + "guard_ptr::reset", {"k": "call", "callee_re": r"::~", "desc": "p->~T()"}, call("decrement_refcnt"), True, label="destroy|claimed",
+            require_action=False)
+    chain(ctx, rid, L + "guard_ptr::reset", [call("marked_ptr::reset"), call("decrement_refcnt")], label="clear<decrement")
+    chain(ctx, rid, L + "guard_ptr::reclaim", [{"k": "call", "op": "fetch_sub", "desc": "ref_count.fetch_sub"}, call("guard_ptr::reset")], label="drop-initial-ref<reset", mode="nobefore")
+    # free list: thread-local list is returned to the global list at thread exit
+    present(ctx, "LFRC.thread-exit", L + "enable_concurrent_ptr::free_list::thread_local_free_list::~thread_local_free_list", call("add_nodes"), label="return-local-list")
+    # decrement_refcnt returns true only for the thread that set the claim bit
+    present(ctx, rid, L + "enable_concurrent_ptr::decrement_refcnt", {"k": "call", "kind": "cas", "desc": "ref_count CAS"}, label="cas")
